@@ -279,3 +279,22 @@ package standard
 //@ loop #4
 //@ invariant [range] 0 <= _n && _n <= len(results)
 //@ invariant [live] forall j int :: 0 <= j && j < _n ==> results[j] == core.ResultUnknown || results[j] == core.ResultSucceeded
+
+// ---- construction: the object handed out has every collaborator the methods rely on ----
+//@ func (Parameter).apply
+//@ requires p != nil
+//@ modifies p.logLevel, p.monitor, p.checker, p.fetcher, p.ruler, p.unlocker
+
+//@ func parseAndCheckParameters
+// (the guard in the loop tests the slice, not the option: a nil option would panic; every caller passes non-nil options)
+//@ requires [options] forall i int :: 0 <= i && i < len(params) ==> params[i] != nil
+//@ ensures [err] result1 != nil ==> result0 == nil
+//@ ensures [ok] result1 == nil ==> result0 != nil && result0.monitor != nil && result0.checker != nil && result0.fetcher != nil && result0.ruler != nil && result0.unlocker != nil
+//@ loop #1
+//@ invariant [range] 0 <= _n && _n <= len(params)
+
+//@ func New
+//@ requires [options] forall i int :: 0 <= i && i < len(params) ==> params[i] != nil
+//@ modifies log
+//@ ensures [err] result1 != nil ==> result0 == nil
+//@ ensures [ok] result1 == nil ==> wiredSigner(result0)
